@@ -51,7 +51,9 @@ type Store struct {
 	Ops     []string
 	// Attempts records completed Put calls with their outcome
 	Attempts []Attempt
-	LatUs    int64 // base latency in microseconds
+	// FailedDeletes: keys whose Delete call returned an error to its caller (whether or not it took effect)
+	FailedDeletes []string
+	LatUs         int64 // base latency in microseconds
 	OnWrite func(w Write, body []byte)
 }
 
@@ -153,7 +155,13 @@ func (s *Store) Delete(ctx context.Context, op, key string) error {
 		s.Log = append(s.Log, w)
 		s.mu.Unlock()
 	})
-	return errFor(out, op, key)
+	err := errFor(out, op, key)
+	if err != nil {
+		s.mu.Lock()
+		s.FailedDeletes = append(s.FailedDeletes, key)
+		s.mu.Unlock()
+	}
+	return err
 }
 
 // Get returns the object (or the inclusive byte range [start,end]).
